@@ -1,5 +1,6 @@
 import ClipVerif.Proofs.C14
 import ClipVerif.Proofs.C14b
+import ClipVerif.Proofs.C14c
 import ClipVerif.Model.PIP
 import ClipVerif.Model.Conv
 import ClipVerif.Proofs.PIP
@@ -114,5 +115,22 @@ theorem pip_correct (pt : Point64) (poly : Array Point64)
       (if Spec.onPath (pathToI poly.toList) ⟨(pt.X.toInt : Rat), (pt.Y.toInt : Rat)⟩ then 0
        else if Spec.wind (pathToI poly.toList) ⟨(pt.X.toInt : Rat), (pt.Y.toInt : Rat)⟩ % 2 ≠ 0 then 1 else 2) :=
   Proofs.PIP.pip_correct pt poly hp hr h3 hflat
+
+/-- `segsIntersect` (exclusive form, used by `fixSelfIntersects`) is exact within the coordinate
+    domain: it holds exactly when the end points of each segment lie strictly on opposite sides of
+    the other segment's line, by exact integer cross products -/
+theorem segsIntersect_exclusive_exact (a b c d : Point64)
+    (ha : a.inRange) (hb : b.inRange) (hc : c.inRange) (hd : d.inRange) :
+    segsIntersect a b c d false = true ↔
+      (crossZ a c d * crossZ b c d < 0 ∧ crossZ c a b * crossZ d a b < 0) :=
+  Proofs.C14c.segsIntersect_exclusive_exact a b c d ha hb hc hd
+
+/-- the inclusive form: no strict same-side pair, and not all four cross products zero -/
+theorem segsIntersect_inclusive_exact (a b c d : Point64)
+    (ha : a.inRange) (hb : b.inRange) (hc : c.inRange) (hd : d.inRange) :
+    segsIntersect a b c d true = true ↔
+      (¬ (0 < crossZ a c d * crossZ b c d) ∧ ¬ (0 < crossZ c a b * crossZ d a b) ∧
+       ¬ (crossZ a c d = 0 ∧ crossZ b c d = 0 ∧ crossZ c a b = 0 ∧ crossZ d a b = 0)) :=
+  Proofs.C14c.segsIntersect_inclusive_exact a b c d ha hb hc hd
 
 end C14
